@@ -194,7 +194,8 @@ inline World gen_world(Rng &r, const GenOpts &o) {
 			}
 		}
 		std::set<int> nums, ports, segaddrs;
-		auto new_num = [&]() { int v; do { v = (int) r.range(0, r.chance(100) ? 127 : 12); } while (nums.count(v)); nums.insert(v); return (uint8_t) v; };
+		// (number 0x00 - the value of a zero-initialised partial record - is frequent on purpose)
+		auto new_num = [&]() { int v; if (!nums.count(0) && r.chance(250)) v = 0; else do { v = (int) r.range(0, r.chance(100) ? 127 : 12); } while (nums.count(v)); nums.insert(v); return (uint8_t) v; };
 		if (cls & 0x04 || r.chance(500)) {
 			for (int k = 0, n = (int) r.below(3); k < n; k++) { BoardAcc a; a.id = b.id + "pb" + std::to_string(k); a.number = new_num(); a.aspects = gen_aspects(r, "p"); if (o.want_initial && r.chance(500)) a.initial = a.aspects[r.below(a.aspects.size())].id; b.points_board.push_back(a); }
 			for (int k = 0, n = (int) r.below(3); k < n; k++) { BoardAcc a; a.id = b.id + "sb" + std::to_string(k); a.number = new_num(); a.aspects = gen_aspects(r, "s"); if (o.want_initial && r.chance(500)) a.initial = a.aspects[r.below(a.aspects.size())].id; b.signals_board.push_back(a); }
